@@ -163,6 +163,12 @@ func (conv *converter) convertInitFunc(dst *ir.File, decl *ast.FuncDecl) {
 		if !ok || pkg.Name != conv.dslPkgname {
 			panic(conv.errorf(stmt, "unsupported call"))
 		}
+		// The name alone does not make it the dsl package: a file that does not import
+		// it under that name can declare a value (or import another package) that is called so.
+		pkgName, ok := conv.types.ObjectOf(pkg).(*types.PkgName)
+		if !ok || pkgName.Imported().Path() != "github.com/quasilyte/go-ruleguard/dsl" {
+			panic(conv.errorf(stmt, "unsupported call"))
+		}
 
 		switch fn.Sel.Name {
 		case "ImportRules":
